@@ -238,6 +238,7 @@ type supDriver struct {
 	lastPos   map[string]int // descriptor identity -> last position seen
 	steps     int
 	delivered map[string]int // dest -> lines expected at the collector so far
+	deadAddr  string         // an address nobody listens on
 }
 
 func (d *supDriver) fail(class, detail string) {
@@ -252,8 +253,12 @@ func (d *supDriver) mkConfig(cs []SupCfg) *forwarder.Config {
 	cfg.Workers = []*forwarder.WorkerConfig{}
 	for _, c := range cs {
 		wt := float64(3 + c.K) // a number of a configuration file: what encoding/json makes of it (the state file is JSON too)
+		addr := d.col.ln.Addr().String()
+		if c.K >= 50 {
+			addr = d.deadAddr
+		}
 		wc := &forwarder.WorkerConfig{Name: supName(c.N),
-			Sink: &sink.Config{Type: sink.SnkTypeSyslog, Params: sink.Params{"Protocol": "tcp", "RemoteAddr": d.col.ln.Addr().String(), "WriteTimeoutSec": wt}}}
+			Sink: &sink.Config{Type: sink.SnkTypeSyslog, Params: sink.Params{"Protocol": "tcp", "RemoteAddr": addr, "WriteTimeoutSec": wt}}}
 		if c.N >= 100 {
 			wc.Pipe = &forwarder.PipeConfig{From: "a=b"}
 		} else {
@@ -263,6 +268,17 @@ func (d *supDriver) mkConfig(cs []SupCfg) *forwarder.Config {
 	}
 	cfg.ReloadFn = func() (*forwarder.Config, error) { return d.mkConfig(d.cur), nil }
 	return cfg
+}
+
+// configurations numbered 50 and above point the sink at an address nobody listens on: sink.NewSink fails
+func gNoSink(cs []SupCfg) string {
+	var xs []string
+	for _, c := range cs {
+		if c.K >= 50 {
+			xs = append(xs, GNat(c.N))
+		}
+	}
+	return GList(xs)
 }
 
 func gSupCfg(cs []SupCfg) string {
@@ -442,6 +458,43 @@ func runSup(rp SupReplay) (*Case, error) {
 	d := &supDriver{dir: TempDir("c18sup"), col: col, lastPos: map[string]int{}, delivered: map[string]int{},
 		cli: &supClient{stores: map[string][]int64{}, failEnsure: map[string]bool{}, ensures: map[string]int{}}}
 	defer RemoveAll(d.dir)
+	if dl, err := net.Listen("tcp", "127.0.0.1:0"); err == nil {
+		d.deadAddr = dl.Addr().String()
+		dl.Close()
+	}
+	// a sink that cannot connect must be refused by sink.NewSink (runWorker then fails and the next sync tries again); a
+	// sink value that is handed out nevertheless breaks the worker at its first batch - then the scenario is not run
+	sinkOk := true
+	if snk, err := sink.NewSink(&sink.Config{Type: sink.SnkTypeSyslog, Params: sink.Params{"Protocol": "tcp", "RemoteAddr": d.deadAddr}}); err == nil {
+		sinkOk = false
+		what := "no panic"
+		func() {
+			defer func() {
+				if r := recover(); r != nil {
+					what = fmt.Sprintf("panic: %v", r)
+				}
+			}()
+			e := snk.OnEvent([]*api.LogEvent{{Timestamp: 1, Message: "x", Tags: "a=b"}})
+			what = fmt.Sprintf("OnEvent returned %v", e)
+		}()
+		d.fail("sink-created-without-connection", fmt.Sprintf("sink.NewSink for the syslog address %s, where nobody listens, returned no error; handing it a batch: %s", d.deadAddr, what))
+	}
+	if !sinkOk {
+		// run the scenario without the unreachable sinks
+		clean := func(cs []SupCfg) []SupCfg {
+			var r []SupCfg
+			for _, c := range cs {
+				if c.K < 50 {
+					r = append(r, c)
+				}
+			}
+			return r
+		}
+		rp.Cfg0 = clean(rp.Cfg0)
+		for i := range rp.Ops {
+			rp.Ops[i].Cfg = clean(rp.Ops[i].Cfg)
+		}
+	}
 	// something to deliver from the first moment on
 	for _, c := range rp.Cfg0 {
 		d.cli.appendN(supDest(c.N), 2)
@@ -469,9 +522,9 @@ func runSup(rp SupReplay) (*Case, error) {
 			d.sup.Sync(d.ctx)
 			d.baseline()
 			if op.New {
-				d.push(GApp("SSync", GSome(gSupCfg(op.Cfg))))
+				d.push(GApp("SSync", GSome(gSupCfg(op.Cfg)), gNoSink(d.cur)))
 			} else {
-				d.push(GApp("SSync", GNone))
+				d.push(GApp("SSync", GNone, gNoSink(d.cur)))
 			}
 			d.settle(true, true)
 		case "startfail":
@@ -494,9 +547,9 @@ func runSup(rp SupReplay) (*Case, error) {
 			d.sup.Sync(d.ctx)
 			d.baseline()
 			if op.New {
-				d.push(GApp("SSync", GSome(gSupCfg(op.Cfg))))
+				d.push(GApp("SSync", GSome(gSupCfg(op.Cfg)), gNoSink(d.cur)))
 			} else {
-				d.push(GApp("SSync", GNone))
+				d.push(GApp("SSync", GNone, gNoSink(d.cur)))
 			}
 			consumed := false
 			for t := 0; t < 500; t++ {
@@ -579,7 +632,7 @@ func runSup(rp SupReplay) (*Case, error) {
 			}
 			d.lastPos = map[string]int{}
 			d.baseline() // under pause: the positions loaded from the state file (or 0 for new descriptors)
-			d.push(GApp("SRestart", gSupCfg(op.Cfg)))
+			d.push(GApp("SRestart", gSupCfg(op.Cfg), gNoSink(op.Cfg)))
 			d.settle(true, true)
 		}
 	}
@@ -588,7 +641,7 @@ func runSup(rp SupReplay) (*Case, error) {
 		d.cli.pause(true)
 		d.sup.Sync(d.ctx)
 		d.baseline()
-		d.push(GApp("SSync", GNone))
+		d.push(GApp("SSync", GNone, gNoSink(d.cur)))
 		d.settle(true, true)
 		for _, x := range d.sup.Workers() {
 			if x.State == 1 {
@@ -614,7 +667,7 @@ func runSup(rp SupReplay) (*Case, error) {
 	d.cli.pause(true)
 	d.sup.Sync(d.ctx)
 	d.baseline()
-	d.push(GApp("SSync", GNone))
+	d.push(GApp("SSync", GNone, gNoSink(d.cur)))
 	d.settle(true, true)
 	return d.finish(rp, view0, storedViews), nil
 }
@@ -627,6 +680,12 @@ func (d *supDriver) finish(rp SupReplay, view0 string, storedViews []string) *Ca
 		ws[nameNum(w.Name)] = w
 	}
 	for _, c := range d.cur {
+		if c.K >= 50 {
+			if _, ok := ws[c.N]; ok {
+				d.fail("sup-worker-without-sink", fmt.Sprintf("w%d is configured with a sink that cannot connect and has a worker", c.N))
+			}
+			continue
+		}
 		w, ok := ws[c.N]
 		sz := d.cli.size(supDest(c.N))
 		p, _ := posOf(w.Position)
@@ -680,6 +739,9 @@ func (d *supDriver) finish(rp SupReplay, view0 string, storedViews []string) *Ca
 		}
 	}
 	for _, c := range d.cur {
+		if c.K >= 50 {
+			continue
+		}
 		dest := supDest(c.N)
 		sz := d.cli.size(dest)
 		conns := perDest[dest]
@@ -702,7 +764,7 @@ func (d *supDriver) finish(rp SupReplay, view0 string, storedViews []string) *Ca
 			cfgs++
 		}
 	}
-	return &Case{Coq: GApp("KSup", gSupCfg(rp.Cfg0), view0, GList(d.evs), GList(d.views), GList(storedViews)), Replay: rp,
+	return &Case{Coq: GApp("KSup", gSupCfg(rp.Cfg0), gNoSink(rp.Cfg0), view0, GList(d.evs), GList(d.views), GList(storedViews)), Replay: rp,
 		NonTrivial: cfgs >= 1, Stream: "sup", Oracle: d.viol,
 		Tags: []string{fmt.Sprintf("sup-reconfigs:%d", cfgs)}}
 }
@@ -713,7 +775,11 @@ func genSup(r *Rng) SupReplay {
 		var cs []SupCfg
 		for _, n := range pool {
 			if r.Chance(3, 5) {
-				cs = append(cs, SupCfg{N: n, K: r.Intn(3)})
+				k := r.Intn(3)
+				if r.Chance(1, 8) {
+					k = 50 // a sink that cannot connect
+				}
+				cs = append(cs, SupCfg{N: n, K: k})
 			}
 		}
 		return cs
@@ -787,6 +853,12 @@ func supCorpus() []SupReplay {
 			{K: "sync", New: true, Cfg: []SupCfg{{2, 1}, {3, 0}}}, {K: "exit", Name: 1}, {K: "exit", Name: 2}, {K: "sync"},
 			{K: "deliver", Name: 2, Cnt: 2}, {K: "persist"}, {K: "restart", Cfg: []SupCfg{{2, 1}, {3, 1}, {1, 0}}},
 			{K: "deliver", Name: 3, Cnt: 1}, {K: "persist"}}},
+		// a configured sink cannot connect: no worker (and no crash); once the address is right the worker runs
+		{Sup: true, Cfg0: []SupCfg{{1, 0}, {2, 50}}, Ops: []SupOp{
+			{K: "deliver", Name: 1, Cnt: 2}, {K: "sync"}, {K: "persist"},
+			{K: "sync", New: true, Cfg: []SupCfg{{1, 0}, {2, 1}}}, {K: "deliver", Name: 2, Cnt: 2},
+			{K: "sync", New: true, Cfg: []SupCfg{{1, 50}, {2, 1}}}, {K: "exit", Name: 1}, {K: "sync"}, {K: "persist"},
+			{K: "restart", Cfg: []SupCfg{{1, 0}, {2, 1}}}, {K: "deliver", Name: 1, Cnt: 1}}},
 		// the start of a worker fails once (the server is not reachable when it asks for its pipe)
 		{Sup: true, Cfg0: []SupCfg{{1, 0}}, Ops: []SupOp{
 			{K: "startfail", Name: 100, New: true, Cfg: []SupCfg{{1, 0}, {100, 0}}}, {K: "sync"}, {K: "deliver", Name: 100, Cnt: 2}, {K: "persist"}}},
